@@ -364,7 +364,11 @@ func (clients *clientsContainer) shouldCountClient(ids []string) (y bool) {
 	defer clients.lock.Unlock()
 
 	for _, id := range ids {
-		client, ok := clients.storage.Find(id)
+		// Use the same lookup as for the query log, see
+		// [clientsContainer.clientOrArtificial], since the addresses among ids
+		// don't have zones, unlike the ones of the persistent clients.
+		ip, _ := netip.ParseAddr(id)
+		client, ok := clients.storage.FindLoose(ip, id)
 		if ok {
 			return !client.IgnoreStatistics
 		}
